@@ -15,7 +15,10 @@ Deterministic world for the blocking (selector based) transports — shared by C
                       not make progress therefore always ends, as the observable `exhausted sock` — no watchdog thread.
   * ScriptedSelector  given through the public `selector_factory=` parameter; every select() consumes one event of
                       the selector script:  ready d  (returns the key after d ticks)  /  expired over
-                      (returns [] after  wait+over  ticks; with an infinite wait: after `over` ticks).
+                      (returns [] after  wait+over  ticks; with an infinite wait: after `over` ticks)  /  never over
+                      (the descriptor NEVER signals the awaited condition: a bounded wait returns [] after
+                      wait+over ticks; a select() WITHOUT timeout would block for ever — it ends the run with
+                      ScriptExhausted("hang"), observable `exhausted hang`, instead of blocking the harness).
   * FakeSSLContext    duck-typed `ssl_context` whose wrap_socket() returns a ScriptedSocket raising the ssl
                       exceptions: SSLStreamTransport's own logic (join, send_all, _try_ssl_method) runs unmodified
                       under a scripted partial-write pattern (real OpenSSL runs are separate, oracle-only cases).
@@ -239,6 +242,14 @@ class ScriptedSelector:
             ret = [(selectors.SelectorKey(self.fd, self.fd, self.event, None), self.event)]
         elif kind == "expired":
             el = float(d) if timeout is None else float(timeout) + float(d)
+            ret = []
+        elif kind == "never":
+            # a condition the descriptor never signals (TLS "want read" during a write whose bytes never show up as a new
+            # readability event, ...): only the retry_interval wake-ups can get the operation going again
+            if timeout is None:
+                w.select_log.append((None, math.inf))
+                raise ScriptExhausted("hang")
+            el = float(timeout) + float(d)
             ret = []
         else:
             raise AssertionError(f"unknown selector event {kind!r}")
